@@ -31,4 +31,5 @@ define(globals(), "c_tables", "tool", F, "verif_c_tables", "c_tables.rs",
         "C meaning table written from C11/C23 <stdint.h>/<uchar.h>; Rust ABI table from the Rust reference"],
        {"C01": ["gen_method / gen_struct_def / gen_ty_name string assembly", "all .jinja templates", "macro param_conversion / gen_custom_type_method"], "C15": []},
        kani_args=["-Z", "stubbing"],
-       extra_appends=[("core/src/hir/type_context.rs", "core_hooks.rs"), ("tool/src/lib.rs", "tool_common.rs")])
+       extra_appends=[("core/src/hir/type_context.rs", "core_hooks.rs"), ("tool/src/lib.rs", "tool_common.rs")],
+       quick_elsewhere={"C15": "C01"})
